@@ -296,8 +296,8 @@ func (l *Lexer) shiftAttribute() []byte {
 				if c == delim {
 					l.r.Move(1)
 					break
-				} else if c == 0 {
-					break
+				} else if c == 0 || l.inPI && c == '?' && l.r.Peek(1) == '>' {
+					break // a processing instruction ends at ?>, also inside quotes
 				}
 				l.r.Move(1)
 				if c == '\t' || c == '\n' || c == '\r' {
